@@ -117,10 +117,26 @@ def run_pyvc(unit, tier):
                 rec["error"] = f"contract proved by pyvc but FAILS natively on {inp}: {msg} (encoder or oracle unsound)"
                 break
         rec["native_crosscheck_cases"] = n
+    # the contract TEXT itself evaluated at run time on the real function over generated small inputs (vf/pyvc/rtc.py): the same
+    # A2 cross-check for every contract, and the fall-back when pyvc cannot decide the current text of the function
+    from vf.pyvc import rtc
+    try:
+        rt = rtc.check_contract(c, limit=120)
+    except Exception as e:  # noqa: BLE001
+        rt = dict(status="unavailable", reason=f"{type(e).__name__}: {e}", cases=0, skipped_clauses=[])
+    rec["runtime_contract"] = dict(status=rt["status"], cases=rt.get("cases", 0), skipped_clauses=rt.get("skipped_clauses"), reason=rt.get("reason"),
+                                   unevaluable=rt.get("eval_errors"))
+    if rt["status"] == "violated" and rec["status"] == "ok" and rec["obligations"] and all(o["result"] == "proved" for o in rec["obligations"]):
+        rec["status"] = "crash"
+        rec["error"] = f"contract proved by pyvc but its run-time evaluation FAILS on {rt['failing_input']}: {rt['observed']} (encoder or contract unsound)"
     failing = [o for o in rec["obligations"] if o["result"] == "refuted"]
     demote = rec["status"] in ("outside-subset", "crash", "missing") or any(o["result"] == "unknown" for o in rec["obligations"])
     if failing or demote:
         native = native_fallback(c, failing)
+        if rt["status"] == "violated" and not any(r_["reproduced"] for r_ in native["replays"]) and not (native.get("search") or {}).get("failing_input"):
+            native["search"] = dict(cases=rt["cases"], failing_input=rt["failing_input"], observed=rt["observed"], by="run-time evaluation of the contract (vf/pyvc/rtc.py)")
+        elif native.get("search") is None and rt["status"] == "ok":
+            native["search"] = dict(cases=rt["cases"], failing_input=None, by="run-time evaluation of the contract (vf/pyvc/rtc.py)")
         rec["native"] = native
     return rec
 
@@ -243,7 +259,7 @@ def decide(prop, tier, seed, pm, units, results, known, wall):
         if r.get("target"):
             functions.append(dict(function=r["target"], mechanism=mech, status=r.get("status"), source_hash=r.get("source_hash"),
                                   lines=r.get("lines"), paths=r.get("paths"), inlined=r.get("inlined"),
-                                  callee_contracts=r.get("used_contracts"), native_crosscheck_cases=r.get("native_crosscheck_cases"), obligations=len(r["obligations"]),
+                                  callee_contracts=r.get("used_contracts"), native_crosscheck_cases=r.get("native_crosscheck_cases"), runtime_contract=r.get("runtime_contract"), obligations=len(r["obligations"]),
                                   discharged=sum(o["result"] == "proved" for o in r["obligations"])))
         for f in r.get("functions", []):
             functions.append(f)
